@@ -318,6 +318,11 @@ where
 
             // namespace declarations are not in `attributes()`: copy those written on `v`.
             for (name, uri) in declared_namespaces(&v)? {
+                // `set_attribute` reads its value as attribute markup: write the name as such.
+                let uri = uri
+                    .replace('&', "&amp;")
+                    .replace('<', "&lt;")
+                    .replace('"', "&quot;");
                 n.set_attribute(name.as_str(), uri.as_str())?;
             }
 
